@@ -124,7 +124,19 @@ def _surr_in_window(p):
     return any(found)
 
 
-CHECKS = {"diff": check_diff, "url": check_url}
+def check_seq(ctx, cfg, seq):
+    """a sequence of calls on the same module-level instance: no call may be influenced by an earlier one in only one implementation"""
+    for s in seq:
+        ctx.run("diff", cfg=cfg, s=s)
+    ctx.cur = ("seq", {"cfg": cfg, "seq": seq})
+    fp, fc = _pair(ctx, cfg)
+    outs_p = [_call(fp, s) for s in seq]
+    outs_c = [_call(fc, s) for s in seq]
+    ctx.case(True, label="seq/" + cfg, key=("seq", cfg, tuple(seq)))
+    ctx.check(outs_p == outs_c, "py and c disagree on a sequence of calls (state carried between calls)", observed={"py": outs_p, "c": outs_c}, expected="identical", entry="sequence")
+
+
+CHECKS = {"diff": check_diff, "url": check_url, "seq": check_seq}
 
 
 def config_names(ctx):
@@ -171,6 +183,22 @@ def generated(ctx, n, long):
     names = config_names(ctx)
     txt = gen.long_text(max_tokens=600) if long else gen.text(max_tokens=14)
     ctx.given("diff", {"cfg": st.sampled_from(names), "s": txt}, max_examples=n)
+
+
+HEADS = ["%AC", "%82%AC", "%A9", "%98%80", "%9F%98%80", "41", "1", "%41", "A9", "%", "25"]
+TAILS_TRUNC = ["%E2%82", "%E2", "%C3", "%F0%9F%98", "%F0%9F", "%F0", "%", "%4", "%%", "%E2%82%"]
+
+
+def sequences(ctx, n):
+    names = config_names(ctx)
+    body = gen.text(max_tokens=4)
+    first = st.builds(lambda b, t: b + t, body, st.sampled_from(TAILS_TRUNC))
+    second = st.builds(lambda h, b: h + b, st.sampled_from(HEADS), body)
+    ctx.given("seq", {"cfg": st.sampled_from(names), "seq": st.lists(st.one_of(first, second, body), min_size=2, max_size=4)}, max_examples=n)
+    for cfg in names:
+        for t in TAILS_TRUNC:
+            for h in HEADS:
+                ctx.run("seq", cfg=cfg, seq=["a" + t, h + "b"])
 
 
 def urls(ctx, n):
@@ -235,6 +263,7 @@ def shards(tier, seed):
             out.append({"name": "long-%d" % i, "fn": "generated", "kw": {"n": 600, "long": True}})
         for i in range(3):
             out.append({"name": "urls-%d" % i, "fn": "urls", "kw": {"n": 2500}})
+        out.append({"name": "sequences", "fn": "sequences", "kw": {"n": 4000}})
         out.append({"name": "asan", "fn": "asan", "kw": {"ks": [1]}})
         out.append({"name": "fuzz", "fn": "fuzz_campaign", "kw": {"runs": 150000}})
     else:
@@ -247,6 +276,8 @@ def shards(tier, seed):
             out.append({"name": "long-%d" % i, "fn": "generated", "kw": {"n": 8000, "long": True}})
         for i in range(6):
             out.append({"name": "urls-%d" % i, "fn": "urls", "kw": {"n": 30000}})
+        for i in range(2):
+            out.append({"name": "sequences-%d" % i, "fn": "sequences", "kw": {"n": 60000}})
         out.append({"name": "asan", "fn": "asan", "kw": {"ks": [1, 2, 3, 4]}})
         out.append({"name": "fuzz", "fn": "fuzz_campaign", "kw": {"runs": 6000000}})
     return out
